@@ -1,4 +1,5 @@
 """Shared oracles used by several property modules."""
+import os
 import random
 from typing import Any, Dict, List, Optional, Tuple
 
@@ -16,7 +17,7 @@ def split_shards(kind: str, total: int, nshards: int, seed: int, salt: int, **ex
     per = max(1, total // nshards)
     out = []
     for i in range(nshards):
-        out.append({"kind": kind, "n": per, "seed": seed_base(seed, salt) + i * 104729, "hashseed": 0, **extra})
+        out.append({"kind": kind, "n": per, "seed": seed_base(seed, salt) + i * 104729, "hashseed": 0, "index": i, **extra})
     return out
 
 
@@ -211,6 +212,10 @@ def _zero_ref(circ: Dict[str, Any]) -> bool:
     return False
 
 
+class CaseBudgetExceeded(BaseException):
+    """Raised by the per-case alarm (BaseException: library code catching Exception must not swallow it)."""
+
+
 def libgen_not_constructible():
     from qv.props import libgen
     return libgen.CompositeNotConstructible
@@ -222,9 +227,23 @@ def guarded(acc: Acc, fn, *args, case=None) -> bool:
     escaping the case (the library raising on a valid input, or handing the oracle a structure it cannot even read) is a
     finding with the exception type as mechanism key - on the unchanged tree no case raises."""
     import traceback
+    import signal
+    import threading
+    budget = int(os.environ.get("VERIF_CASE_SECONDS", "60"))
+    use_alarm = budget > 0 and threading.current_thread() is threading.main_thread() and hasattr(signal, "SIGALRM")
+    if use_alarm:
+        def _expired(signum, frame):
+            raise CaseBudgetExceeded()
+        previous = signal.signal(signal.SIGALRM, _expired)
+        signal.alarm(budget)
     try:
         fn(*args)
         return True
+    except CaseBudgetExceeded:
+        # one case that runs away (memo-free re-evaluation of a pathological structure is exponential) is inconclusive for
+        # that case - counted, never a verdict - and must not starve the rest of the shard into the run's watchdog
+        acc.count("case_budget_inconclusive")
+        return False
     except RecursionError:
         acc.count("recursion_inconclusive")
         return False
@@ -233,8 +252,14 @@ def guarded(acc: Acc, fn, *args, case=None) -> bool:
         acc.count("composite_not_constructible")
         return False
     except Exception as exc:  # noqa: BLE001
+        if use_alarm:
+            signal.alarm(0)
         tb = traceback.extract_tb(exc.__traceback__)
         where = next((f"{fr.filename.rsplit('/', 1)[-1]}:{fr.name}" for fr in reversed(tb) if "qce_circuit" in fr.filename), "harness")
         acc.finding(f"exception/{type(exc).__name__}", f"{type(exc).__name__} while checking a valid case (raised in {where}): {str(exc)[:160]}",
                     case if case is not None else {"args": repr(args[0])[:2000]}, {"traceback": [f"{fr.filename.rsplit('/', 1)[-1]}:{fr.lineno}:{fr.name}" for fr in tb[-6:]]})
         return False
+    finally:
+        if use_alarm:
+            signal.alarm(0)
+            signal.signal(signal.SIGALRM, previous)
